@@ -55,7 +55,11 @@ __CPROVER_ensures((RV == m && PU_SEL && g_k < OLD(m->m_body.ch_len)) ==> m->m_bo
 __CPROVER_ensures((RV == m && PU_SEL && g_hk < OLD(m->m_header_len) && g_j == g_hk) ==> m->m_body.ch_ptr[g_hk] == g_hb)
 /* by copy: a new unshared message; exactly one reference on the original dropped (released if it was the last) */
 __CPROVER_ensures(PU_COPY ==> (__CPROVER_is_fresh(RV, sizeof(struct nng_msg)) && RV->m_header_len == 0 && RV->m_refcnt.v == 1 && RV->m_body.ch_len == OLD(m->m_body.ch_len) + OLD(m->m_header_len)))
+#ifdef IP_PU_NOBUF
+__CPROVER_ensures(PU_COPY ==> (RV->m_body.ch_cap > 0))
+#else
 __CPROVER_ensures(PU_COPY ==> (RV->m_body.ch_cap > 0 && __CPROVER_is_fresh(RV->m_body.ch_buf, RV->m_body.ch_cap) && __CPROVER_pointer_in_range_dfcc(RV->m_body.ch_buf, RV->m_body.ch_ptr, RV->m_body.ch_buf + RV->m_body.ch_cap) && CH_FULL_SCALAR(&RV->m_body)))
+#endif
 __CPROVER_ensures((PU_COPY && OLD(m->m_refcnt.v) > 1) ==> (!__CPROVER_was_freed(m) && !__CPROVER_was_freed(OLD(m->m_body.ch_buf)) && m->m_refcnt.v == OLD(m->m_refcnt.v) - 1 && VP_HEAP_DELTA(2, 0)))
 __CPROVER_ensures((PU_COPY && OLD(m->m_refcnt.v) == 1) ==> (__CPROVER_was_freed(m) && __CPROVER_was_freed(OLD(m->m_body.ch_buf)) && VP_HEAP_DELTA(2, 2)))
 __CPROVER_ensures((PU_COPY && PU_SEL && g_k < OLD(m->m_body.ch_len)) ==> RV->m_body.ch_ptr[OLD(m->m_header_len) + g_k] == g_b)
@@ -199,13 +203,22 @@ __CPROVER_ensures(IP_RUN_CLOSED_POST)
  * released exactly once and the reader KEEPS WAITING for the next writer ("delivered completely or
  * not at all"; the send had already been accepted).  Order of completions is the queue order.
  */
-#define MSG_LIVE_PRE(a) (MSG_PRE((a)->a_msg) && (a)->a_msg->m_refcnt.v < 1000)
+/* The messages of the waiting writers are HARNESS-BUILT like the aios (harness.c vp_mk_msg): a struct nng_msg object
+ * and a body buffer object of nondeterministic size (-DIP_CAP=N: of the constant size N), data pointer anywhere inside;
+ * every field nondeterministic.  The contract states the same shape as plain conditions (is_fresh in the precondition
+ * of the function under contract made CBMC's points-to sets of aio->a_msg include the contract library's internal
+ * tables: 50 M clauses).  nni_msg_pull_up's own precondition (MSG_PRE, is_fresh form) is CHECKED at the replaced call. */
+#define IP_BUF_OK(m) ((m)->m_body.ch_buf != NULL && __CPROVER_POINTER_OFFSET((m)->m_body.ch_buf) == 0 && __CPROVER_OBJECT_SIZE((m)->m_body.ch_buf) == (m)->m_body.ch_cap && \
+    __CPROVER_rw_ok((m)->m_body.ch_buf, (m)->m_body.ch_cap) && __CPROVER_same_object((m)->m_body.ch_buf, (m)->m_body.ch_ptr) && DISTINCT((m)->m_body.ch_buf, (m)))
+#define IP_MSG_PRE(m) (OBJ_OK((m), struct nng_msg) && DISTINCT((m), g_q) && (m)->m_header_len <= MSG_HDRCAP && (m)->m_body.ch_cap > 0 && (m)->m_body.ch_cap < ((size_t) 1 << 55) /* CBMC's maximum object size, as __CPROVER_is_fresh implies */ && IP_BUF_OK(m) && \
+    CH_FULL_SCALAR(&(m)->m_body) && (m)->m_refcnt.v >= 1)
+#define MSG_LIVE_PRE(a) (IP_MSG_PRE((a)->a_msg) && (a)->a_msg->m_refcnt.v < 1000)
 #if IP_W == 0
 #define IP_MSGS_PRE 1
 #elif IP_W == 1
 #define IP_MSGS_PRE (MSG_LIVE_PRE(W1) && PU_GHOST_REQ(W1->a_msg))
 #else
-#define IP_MSGS_PRE (MSG_LIVE_PRE(W1) && MSG_LIVE_PRE(W2))
+#define IP_MSGS_PRE (MSG_LIVE_PRE(W1) && MSG_LIVE_PRE(W2) && DISTINCT(W1->a_msg, W2->a_msg) && DISTINCT(W1->a_msg->m_body.ch_buf, W2->a_msg->m_body.ch_buf) && DISTINCT(W1->a_msg, W2->a_msg->m_body.ch_buf) && DISTINCT(W2->a_msg, W1->a_msg->m_body.ch_buf))
 #endif
 #if IP_W == 0
 #define IP_MSGS_ASSIGNS
@@ -237,7 +250,10 @@ __CPROVER_ensures(IP_RUN_CLOSED_POST)
     ((g_hk < O_HL(w) && g_j == g_hk && g_abs == CH_OFF(&(r)->a_msg->m_body) + g_hk) ==> (r)->a_msg->m_body.ch_ptr[g_hk] == g_hb))
 /* writer w's message was not delivered: released exactly once */
 #define M_DROPPED(w) (O_RC(w) == 1 ? __CPROVER_was_freed(O_MSG(w)) : (!__CPROVER_was_freed(O_MSG(w)) && O_MSG(w)->m_refcnt.v == O_RC(w) - 1))
-#define R_WAITS(r) ((r)->a_msg == OLD((r)->a_msg) && (r)->a_result == OLD((r)->a_result) && (r)->a_count == OLD((r)->a_count))
+/* reader r still waits: nothing delivered to it.  IP_IS_NEW(r): r is the aio just submitted through
+ * inproc_pipe_recv (its result and count were reset by nni_aio_reset before it was queued) */
+#define IP_IS_NEW(r) (0)
+#define R_WAITS(r) ((r)->a_msg == OLD((r)->a_msg) && (IP_IS_NEW(r) ? ((r)->a_result == NNG_OK && (r)->a_count == 0) : ((r)->a_result == OLD((r)->a_result) && (r)->a_count == OLD((r)->a_count))))
 /* net heap effect: live blocks after - live blocks before */
 #define HEAP_NET ((long) (g_alloc_ok - OLD(g_alloc_ok)) - (long) (g_free_calls - OLD(g_free_calls)))
 
@@ -428,6 +444,8 @@ __CPROVER_ensures(g_aio_start_ok ==> IP_RUN_POST)
 ;
 #endif
 #if IP_R >= 1
+#undef IP_IS_NEW
+#define IP_IS_NEW(r) ((r) == RECV_AIO)
 static void inproc_pipe_recv(void *arg, nni_aio *aio)
 __CPROVER_requires(IP_PIPE_PRE && arg == g_pipe && PIPE->recv_queue == Q && aio == RECV_AIO && VP_NO_LOCK_HELD)
 __CPROVER_requires(OBJ_OK(g_q, inproc_queue) && IP_Q_LISTS_OK(Q) && RECV_R_PRE && IP_WRITERS_PRE && IP_X11 && IP_X21 && IP_X12 && IP_X22 && g_ip.fin_calls == 0 && IP_CLOSED_PRE)
